@@ -292,14 +292,17 @@ def execute(prog):
                 if cmds:
                     WORLD.probe("cmd_after_replug")
                 st["post_replug"] = False
-                if not closes_failed and not op.get("cc") and not op.get("ioctl_errno") and kind == "exc" and not isinstance(val, KeyboardInterrupt):
+                if not closes_failed and not open_failed and not op.get("cc") and not op.get("ioctl_errno") and kind == "exc" and not isinstance(val, KeyboardInterrupt):
                     V.append(dict(oracle="C15.replug-breaks-command", where=where, detail=type(val).__name__,
                                   expected="command executes through the fresh handle", actual=repr(val)[:100]))
             else:
                 if opens:
                     # re-opening although the node was not replaced is wasteful but not forbidden by the property: counted, not judged
                     WORLD.probe("reopen_without_replug")
-                if not op.get("cc") and not op.get("ioctl_errno") and kind == "exc" and not closes_failed:
+                if open_failed:
+                    # an implementation that re-opens more often than it must met the refused open: the failure is the OS's
+                    WORLD.probe("voluntary_reopen_refused")
+                elif not op.get("cc") and not op.get("ioctl_errno") and kind == "exc" and not closes_failed:
                     V.append(dict(oracle="C15.command-fails", where=where, detail=type(val).__name__,
                                   expected="command executes (node unchanged)", actual=repr(val)[:100]))
         else:
@@ -380,6 +383,9 @@ def execute(prog):
                         st["extra_devs"].append(d2)
                     if d2 is dev:
                         WORLD.probe("second_user_got_same_object")
+                    else:
+                        for h in WORLD.handles[mark_h:]:
+                            h.other_user = True      # also what the second user opened while executing (it may re-open as it likes)
                     WORLD.probe("second_user")
                 summary.append("second:%s" % k2)
             elif name == "replug" and sgio_mode:
